@@ -1048,11 +1048,15 @@ class Interp:
             if tail == "pop":
                 if isinstance(v, list):
                     return Some(v.pop()) if v else NONE
+                if isinstance(v, FVec):
+                    v.n = (v.n - 1) if isinstance(v.n, int) and v.n > 0 else (v.n if v.n == 0 else None)
                 return UNK
             if tail == "truncate" and len(args) == 2:
                 n = A(1)
                 if isinstance(v, list) and isinstance(n, int):
                     del v[n:]
+                elif isinstance(v, FVec):
+                    v.n = min(v.n, n) if isinstance(n, int) and isinstance(v.n, int) else None
                 return ()
             if tail == "insert" and len(args) == 3:
                 i, x = A(1), A(2)
@@ -1060,6 +1064,8 @@ class Interp:
                     if i > len(v):
                         raise Panic(e)
                     v.insert(i, x)
+                elif isinstance(v, FVec):
+                    v.n = (v.n + 1) if isinstance(v.n, int) else None
                 return ()
             if tail == "remove" and len(args) == 2:
                 i = A(1)
@@ -1067,6 +1073,8 @@ class Interp:
                     if i >= len(v):
                         raise Panic(e)
                     return v.pop(i)
+                if isinstance(v, FVec):
+                    v.n = (v.n - 1) if isinstance(v.n, int) and v.n > 0 else None
                 return UNK
             if tail in ("extend", "extend_from_slice", "append") and len(args) == 2:
                 x = self.items(A(1))
@@ -1089,6 +1097,8 @@ class Interp:
             if tail == "clear":
                 if isinstance(v, list):
                     del v[:]
+                elif isinstance(v, FVec):
+                    v.n = 0
                 return ()
             if tail == "reverse":
                 if isinstance(v, list):
@@ -1101,6 +1111,8 @@ class Interp:
                         del v[n:]
                     else:
                         v.extend([x] * (n - len(v)))
+                elif isinstance(v, FVec):
+                    v.n = n if isinstance(n, int) else None
                 return ()
             if tail == "split_off" and len(args) == 2:
                 n = A(1)
